@@ -168,4 +168,24 @@ def toStringIn (signed : Bool) (a : Int) (d : Denom) : Bytes :=
 def toStringWithDenomination (signed : Bool) (a : Int) (d : Denom) : Bytes :=
   toStringIn signed a d ++ [0x20] ++ displayOf d
 
+/-! ### The arithmetic sites as the source spells them (added)
+`parseLoop` / `rescale` above write the two overflow tests as comparisons on `Nat`. The three definitions below evaluate instead
+the std methods that the translator READS at the three arithmetic sites of `parse_signed_to_piconero` (`Gen.amtParseMul`,
+`Gen.amtParseAdd`, `Gen.amtRescaleMul`, with `StdOp.eval` on u64); `C15_checked_steps` proves that they coincide with the
+comparisons, so a `wrapping_mul` in the source makes a theorem fail. `Gen.amtMaxLen` is the literal of the length test. -/
+/-- one digit: `10_u64.<mul>(value)` then `.<add>(digit)`; `none` = `TooBig` (or an unrecognised site) -/
+def genDigitStep (v dgt : Nat) : Option Int :=
+  match Gen.amtParseMul, Gen.amtParseAdd with
+  | some m, some a => (m.eval TyU64 10 (v : Int)).bind fun x => a.eval TyU64 x (dgt : Int)
+  | _, _ => none
+/-- one rescale step: `10_u64.<mul>(value)` -/
+def genRescaleStep (v : Nat) : Option Int :=
+  match Gen.amtRescaleMul with
+  | some m => m.eval TyU64 10 (v : Int)
+  | none => none
+
+/-- `Display for Amount` / `Display for SignedAmount` (amount.rs 414-419, 729-734): `fmt_value_in(f, Denomination::Monero)`
+then `" {}"` of `Denomination::Monero` — the denomination is hard-wired -/
+def display (signed : Bool) (a : Int) : Bytes := toStringWithDenomination signed a .Monero
+
 end Monero.AmtText
